@@ -178,9 +178,11 @@ def sym_text(s):
     raise TypeError(s)
 
 
-def to_lalrpop(g: Grammar, force_lalr=None):
+def to_lalrpop(g: Grammar, force_lalr=None, ascent=False):
     out = []
     lalr = g.lalr if force_lalr is None else force_lalr
+    if ascent:
+        out.append("#[recursive_ascent]")
     for u in g.uses:
         pass
     if lalr:
